@@ -18,6 +18,7 @@ EXTENDS Integers, Sequences, FiniteSets, TLC, Json, IOUtils, SequencesExt
 L == INSTANCE LR
 B == INSTANCE Builder
 D == INSTANCE BuilderDepth
+X == INSTANCE Lex          \* the scanner: flex semantics over the rules extracted from lexer.l
 
 Docs == ndJsonDeserialize(IOEnv.XTA_DOCS)
 
@@ -59,14 +60,20 @@ InstExpected(x) == [name |-> x.name, templ |-> x.templ, params |-> x.params, unb
 SystemOfBuilder(b) == [instances |-> [k \in 1..Len(b.insts) |-> InstOfBuilder(b, b.insts[k])], processes |-> [k \in 1..Len(b.procs) |-> InstOfBuilder(b, b.procs[k])]]
 SystemExpected(e) == [instances |-> [k \in 1..Len(e.instances) |-> InstExpected(e.instances[k])], processes |-> [k \in 1..Len(e.processes) |-> InstExpected(e.processes[k])]]
 
+(* a document that carries its text (a sequence of characters) is scanned here: characters -> Lex!Scan -> LR!Parse -> Builder - the whole textual front end
+   at the level of the specifications. The token string lib/xtalex.py made of the same text must be the same (lexagree). *)
+Scanned(doc) == LET r == X!Scan(doc.text, "new", {doc.types[k] : k \in DOMAIN doc.types}) IN
+                [k \in DOMAIN r.toks |-> [t |-> r.toks[k].t, n |-> r.toks[k].n, s |-> r.toks[k].s]]
 Result(doc) ==
-    LET p == L!Parse("T_NEW", doc.toks)
+    LET hasText == "text" \in DOMAIN doc
+        toks == IF hasText THEN Scanned(doc) ELSE doc.toks
+        p == L!Parse("T_NEW", toks)
         d == D!Depths(p.out)
         b == Feed(B!Init0, p.out, 1)
         accepted == p.mode = "accept" /\ p.nerr = 0 /\ d.f = 0 /\ d.t = 0 /\ d.fr = 0 /\ ~d.under /\ d.unknown = "" /\ b.nerr = 0 /\ b.frames = <<"g">> /\ b.curT = 0
         graphs == GraphOfBuilder(b) = Graph(doc.exp)
         system == SystemOfBuilder(b) = SystemExpected(doc.exp)
-    IN [id |-> doc.id, accepted |-> accepted, graphs |-> graphs, system |-> system, docinv |-> B!DocInv(b),
+    IN [id |-> doc.id, scanned |-> hasText, lexagree |-> (~hasText \/ toks = doc.toks), accepted |-> accepted, graphs |-> graphs, system |-> system, docinv |-> B!DocInv(b),
         mode |-> p.mode, nerr |-> p.nerr, residue |-> <<d.f, d.t, d.fr>>, under |-> d.under, unknown |-> d.unknown, bnerr |-> b.nerr,
         cbs |-> [i \in 1..Len(p.out) |-> p.out[i].cb]]
 ASSUME \A k \in 1..Len(Docs) : PrintT(<<"EMIT", ToJson(Result(Docs[k]))>>)
